@@ -12,49 +12,80 @@ import RoModel.Prom
 namespace Ro.Driver.Drivers.Prom
 open Ro Ro.Driver Ro.Prom
 
-/-- the int→int catalogue operators (go/harness/ops.go, `chain: true`) as packed machines;
-    same table as `Ro.Driver.lookup`, restricted to that subset -/
+/-! The int→int catalogue operators (go/harness/ops.go, `chain: true`) as packed machines: the same
+    table as `Ro.Driver.lookup`, restricted to that subset. It is a list of (name, builder) so that
+    statements about *every* stage the driver can build are proved entry by entry. -/
+
+/-- parameters × variant × callbacks → stage -/
+abbrev Builder := List Int → String → List Cb → Option (AnyM Int)
+
+def b0 (a : AnyM Int) : Builder := fun p _ cbs =>
+  match p, cbs with | [], [] => some a | _, _ => none
+def b1 (f : Int → AnyM Int) : Builder := fun p _ cbs =>
+  match p, cbs with | [n], [] => some (f n) | _, _ => none
+def b2 (f : Int → Int → AnyM Int) : Builder := fun p _ cbs =>
+  match p, cbs with | [n, d], [] => some (f n d) | _, _ => none
+def bList (f : List Int → AnyM Int) : Builder := fun p _ cbs =>
+  match cbs with | [] => some (f p) | _ => none
+def bPred (f : Pred Int → AnyM Int) : Builder := fun p var cbs =>
+  match p, cbs with | [], [cb] => (mkPred var cb).map f | _, _ => none
+def bProj (f : (Ctx → Int → Nat → Ctx × Int) → AnyM Int) : Builder := fun p var cbs =>
+  match p, cbs with | [], [cb] => (mkProj var cb).map f | _, _ => none
+def bBool (f : (Ctx → Int → Nat → Bool) → AnyM Int) : Builder := fun p var cbs =>
+  match p, cbs with | [], [cb] => (mkBoolPred var cb).map f | _, _ => none
+def bProjErr (f : (Ctx → Int → Nat → Int × Ctx × Option Err) → AnyM Int) : Builder := fun p var cbs =>
+  match p, cbs with | [k], [cb] => (mkProjErr var cb k).map f | _, _ => none
+def bRed (f : (Ctx → Int → Int → Nat → Ctx × Int) → Int → AnyM Int) : Builder := fun p var cbs =>
+  match p, cbs with | [seed], [cb] => (mkRed var cb).map (fun g => f g seed) | _, _ => none
+def bKey (f : (Ctx → Int → Ctx × Int) → AnyM Int) : Builder := fun p var cbs =>
+  match p, cbs with
+  | [], [cb] => (unary cb.name).map (fun g => f (fun c v => (tagWith (if hasCtx var then cb.tag else none) c, g v)))
+  | _, _ => none
+
+def stageTable : List (String × Builder) := [
+  -- operator_filter.go
+  ("Filter", bPred (fun f => AnyM.of (filterM f))),
+  ("Distinct", b0 (AnyM.of (distinctByM (fun c (v : Int) => (c, v))))),
+  ("DistinctBy", bKey (fun k => AnyM.of (distinctByM k))),
+  ("IgnoreElements", b0 (AnyM.of (ignoreElementsM (α := Int)))),
+  ("Skip", b1 (fun n => AnyM.of (skipM (α := Int) (natOf n)))),
+  ("SkipWhile", bPred (fun f => AnyM.of (skipWhileM f))),
+  ("SkipLast", b1 (fun n => AnyM.of (skipLastM (α := Int) (natOf n)))),
+  ("Take", b1 (fun n => if n == 0 then AnyM.of (emptyM (α := Int) (β := Int)) else AnyM.of (takeM (α := Int) (natOf n)))),
+  ("TakeWhile", bPred (fun f => AnyM.of (takeWhileM f))),
+  ("TakeLast", b1 (fun n => if n == 0 then AnyM.of (emptyM (α := Int) (β := Int)) else AnyM.of (takeLastM (α := Int) (natOf n)))),
+  ("Head", b0 (AnyM.of (headM (α := Int)))),
+  ("Tail", b0 (AnyM.of (tailM (α := Int)))),
+  ("First", bPred (fun f => AnyM.of (firstM f))),
+  ("Last", bPred (fun f => AnyM.of (lastM f))),
+  ("ElementAt", b1 (fun n => AnyM.of (elementAtM (α := Int) (natOf n)))),
+  ("ElementAtOrDefault", b2 (fun n d => AnyM.of (elementAtOrDefaultM (natOf n) d))),
+  -- operator_transformations.go and the single-source operators of combining / utility
+  ("Map", bProj (fun f => AnyM.of (mapM f))),
+  ("MapTo", b1 (fun b => AnyM.of (mapToM (α := Int) b))),
+  ("MapErr", bProjErr (fun f => AnyM.of (mapErrM f))),
+  ("Scan", bRed (fun f seed => AnyM.of (scanM f seed))),
+  ("StartWith", bList (fun pre => AnyM.of (startWithM pre))),
+  ("EndWith", bList (fun suf => AnyM.of (endWithM suf))),
+  ("Tap", b0 (AnyM.of (idM (α := Int)))),
+  ("TapOnSubscribe", b0 (AnyM.of (idM (α := Int)))),
+  ("TapOnFinalize", b0 (AnyM.of (idM (α := Int)))),
+  ("Serialize", b0 (AnyM.of (idM (α := Int)))),
+  ("OnErrorReturn", b1 (fun v => AnyM.of (onErrorReturnM v))),
+  ("ThrowIfEmpty", b1 (fun k => AnyM.of (throwIfEmptyM (α := Int) (.user (natOf k))))),
+  ("MaterializeDematerialize", b0 (AnyM.of ((materializeM (α := Int)).seq dematerializeM))),
+  -- operator_conditional.go / operator_math.go
+  ("Find", bBool (fun f => AnyM.of (findM f))),
+  ("DefaultIfEmpty", b1 (fun d => AnyM.of (defaultIfEmptyM Ctx.bg d))),
+  ("DefaultIfEmptyWithContext", b2 (fun d m => AnyM.of (defaultIfEmptyM ({ marks := [natOf m] }) d))),
+  ("Sum", b0 (AnyM.of sumM)),
+  ("Min", b0 (AnyM.of minM)),
+  ("Max", b0 (AnyM.of maxM)),
+  ("Clamp", b2 (fun lo hi => AnyM.of (clampM lo hi))),
+  ("Reduce", bRed (fun f seed => AnyM.of (reduceM f seed)))]
+
 def stageOf (op : String) (p : List Int) (var : String) (cbs : List Cb) : Option (AnyM Int) :=
-  match op, p, cbs with
-  | "Filter", [], [cb] => (mkPred var cb).map (fun f => AnyM.of (filterM f))
-  | "Distinct", [], [] => some (AnyM.of (distinctByM (fun c (v : Int) => (c, v))))
-  | "DistinctBy", [], [cb] =>
-      (unary cb.name).map (fun f => AnyM.of (distinctByM (fun c (v : Int) => (tagWith (if hasCtx var then cb.tag else none) c, f v))))
-  | "IgnoreElements", [], [] => some (AnyM.of (ignoreElementsM (α := Int)))
-  | "Skip", [n], [] => some (AnyM.of (skipM (α := Int) (natOf n)))
-  | "SkipWhile", [], [cb] => (mkPred var cb).map (fun f => AnyM.of (skipWhileM f))
-  | "SkipLast", [n], [] => some (AnyM.of (skipLastM (α := Int) (natOf n)))
-  | "Take", [n], [] => some (if n == 0 then AnyM.of (emptyM (α := Int) (β := Int)) else AnyM.of (takeM (α := Int) (natOf n)))
-  | "TakeWhile", [], [cb] => (mkPred var cb).map (fun f => AnyM.of (takeWhileM f))
-  | "TakeLast", [n], [] => some (if n == 0 then AnyM.of (emptyM (α := Int) (β := Int)) else AnyM.of (takeLastM (α := Int) (natOf n)))
-  | "Head", [], [] => some (AnyM.of (headM (α := Int)))
-  | "Tail", [], [] => some (AnyM.of (tailM (α := Int)))
-  | "First", [], [cb] => (mkPred var cb).map (fun f => AnyM.of (firstM f))
-  | "Last", [], [cb] => (mkPred var cb).map (fun f => AnyM.of (lastM f))
-  | "ElementAt", [n], [] => some (AnyM.of (elementAtM (α := Int) (natOf n)))
-  | "ElementAtOrDefault", [n, d], [] => some (AnyM.of (elementAtOrDefaultM (natOf n) d))
-  | "Map", [], [cb] => (mkProj var cb).map (fun f => AnyM.of (mapM f))
-  | "MapTo", [b], [] => some (AnyM.of (mapToM (α := Int) b))
-  | "MapErr", [k], [cb] => (mkProjErr var cb k).map (fun f => AnyM.of (mapErrM f))
-  | "Scan", [seed], [cb] => (mkRed var cb).map (fun f => AnyM.of (scanM f seed))
-  | "StartWith", pre, [] => some (AnyM.of (startWithM pre))
-  | "EndWith", suf, [] => some (AnyM.of (endWithM suf))
-  | "Tap", [], [] => some (AnyM.of (idM (α := Int)))
-  | "TapOnSubscribe", [], [] => some (AnyM.of (idM (α := Int)))
-  | "TapOnFinalize", [], [] => some (AnyM.of (idM (α := Int)))
-  | "Serialize", [], [] => some (AnyM.of (idM (α := Int)))
-  | "OnErrorReturn", [v], [] => some (AnyM.of (onErrorReturnM v))
-  | "ThrowIfEmpty", [k], [] => some (AnyM.of (throwIfEmptyM (α := Int) (.user (natOf k))))
-  | "MaterializeDematerialize", [], [] => some (AnyM.of ((materializeM (α := Int)).seq dematerializeM))
-  | "Find", [], [cb] => (mkBoolPred var cb).map (fun f => AnyM.of (findM f))
-  | "DefaultIfEmpty", [d], [] => some (AnyM.of (defaultIfEmptyM Ctx.bg d))
-  | "DefaultIfEmptyWithContext", [d, m], [] => some (AnyM.of (defaultIfEmptyM ({ marks := [natOf m] }) d))
-  | "Sum", [], [] => some (AnyM.of sumM)
-  | "Min", [], [] => some (AnyM.of minM)
-  | "Max", [], [] => some (AnyM.of maxM)
-  | "Clamp", [lo, hi], [] => some (AnyM.of (clampM lo hi))
-  | "Reduce", [seed], [cb] => (mkRed var cb).map (fun f => AnyM.of (reduceM f seed))
-  | _, _, _ => none
+  (stageTable.find? (fun e => e.1 == op)).bind (fun e => e.2 p var cbs)
 
 /-- the plugin's stand-alone operators; with the licence off they are `return source` -/
 def standalone (lic : Bool) : String → Option (AnyM Int)
